@@ -287,3 +287,49 @@ fn c01_vec_zst() {
         assert!(v.size() <= len, "C05: size() exceeds the mapped bytes");
     }
 }
+
+/// FlexVec<Bool,u8>: several items with a content constraint each.  C02: acceptance == reference chain walk with item
+/// validation; C19: a content error is reported at the offending byte of the offending ITEM (not a neighbour's).
+#[kani::proof]
+#[kani::unwind(10)]
+fn c19_flex_bool() {
+    const N: usize = 7;
+    let (len, off) = any_len_off(N, 1);
+    let b = sym_slice(len, 1, off, N);
+    let r = FlexVec::<Bool, u8>::validate(b);
+    // reference walk (slot = 1 byte, payload = 1 Bool + spare bytes)
+    let mut pos = 0usize;
+    let mut done = false;
+    let mut exp_ok = true;
+    let mut exp_kind_content = false; // first problem is a bad Bool
+    let mut exp_pos = 0usize;
+    let mut k = 0;
+    while k < N + 1 {
+        if !done {
+            if pos >= len { exp_ok = false; done = true; }
+            else {
+                let o = b[pos] as usize;
+                if o == 0 { done = true; }
+                else {
+                    let last = o == 255;
+                    let end = if last { len } else { pos + o };
+                    if !last && end > len { exp_ok = false; done = true; }
+                    else if end < pos + 2 { exp_ok = false; done = true; } // no room for the Bool
+                    else if b[pos + 1] > 1 { exp_ok = false; exp_kind_content = true; exp_pos = pos + 1; done = true; }
+                    else if last { done = true; }
+                    else { pos = end; }
+                }
+            }
+        }
+        k += 1;
+    }
+    assert!(r.is_ok() == exp_ok, "C02: FlexVec<Bool,u8> acceptance differs from the reference chain walk");
+    if let Err(e) = r {
+        if exp_kind_content {
+            assert!(e.kind == ErrorKind::InvalidData, "C02: wrong error kind for a bad Bool inside a FlexVec item");
+            assert!(e.pos == exp_pos, "C19: error position is not the offending byte of the offending item");
+        } else {
+            assert!(e.kind == ErrorKind::InsufficientSize, "C02,C06: a short chain must be InsufficientSize");
+        }
+    }
+}
